@@ -158,12 +158,18 @@ def run_session(spec):
                     r = {"ok": None}
                 else:
                     r = {"harness_error": "unknown action %r" % a}
-            except Exception as e:  # the outcome of the action, reported
-                r = {"raise": type(e).__name__, "msg": str(e)[:200]}
+            except Exception as e:  # the outcome of the action, reported (with the call chain that raised)
+                import traceback
+                r = {"raise": type(e).__name__, "msg": str(e)[:200],
+                     "site": [fr.name for fr in traceback.extract_tb(e.__traceback__)
+                              if "joblib" in fr.filename or fr.filename.endswith(("os.py", "shutil.py"))]}
             r["computed"] = [x for (who, x) in vmod.CALLS[mark:] if who == threading.get_ident()]
             results.append(r)
     except BaseException as e:  # construction failed
-        results.append({"raise": type(e).__name__, "msg": str(e)[:200], "where": "init"})
+        import traceback
+        results.append({"raise": type(e).__name__, "msg": str(e)[:200], "where": "init",
+                        "site": [fr.name for fr in traceback.extract_tb(e.__traceback__)
+                                 if "joblib" in fr.filename or fr.filename.endswith(("os.py", "shutil.py"))]})
     c05_shim.finished()
     out = {"results": results, "pid": os.getpid(), "log": c05_shim.current_log(),
            "wid": "%d_%d" % (os.getpid(), id(threading.current_thread()))}
